@@ -51,6 +51,42 @@ TYPED_WRITERS = ["write_seqs", "write_seqs_sqlite"]
 UNTYPED_WRITERS = ["write_json", "write_db", "write_json_sqlite"]
 
 
+# ------------------------------------------------------- value classes (apps_C14.py)
+def instantiations(plan, typed, named, k, writer_for):
+    """ways to enact one emitted behaviour with concrete value classes:
+    -> [(family, vclass per input, writer)], chosen by rotation on k (no oracle here: the spec's
+    `named` flag only says whether the value met by the failing step names its source)
+      family seqs   : values are SequenceCollections (always naming their source); the flag can only
+                      be realised by the class of the wrongly typed value a `wrong` step returns
+      family values : the class of the flowing value realises the flag; steps accept all classes,
+                      so plans with a `wrong` outcome are left to the other family"""
+    import apps_C14 as A
+
+    out = []
+    fails = [next((s + 1 for s, o in enumerate(p) if o != "ok"), 0) for p in plan]
+    has_wrong = ["wrong" in p for p in plan]
+    if not typed and not any(has_wrong):
+        writer = writer_for(k)
+        vc = []
+        for i, nm in enumerate(named):
+            pool = A.NAMED_VALUES if nm else tuple(c for c in A.UNNAMED_VALUES if c != "bytes" or writer == "write_db")
+            vc.append(pool[(k + i) % len(pool)])
+        out.append(("values", vc, writer))
+    if all(nm or has_wrong[i] or fails[i] in (0, 1) for i, nm in enumerate(named)) and (not all(named)) and any(has_wrong[i] and not nm for i, nm in enumerate(named)):
+        vc = []
+        for i, nm in enumerate(named):
+            pool = A.NAMED_WRONG if nm else A.UNNAMED_WRONG
+            vc.append(pool[(k + i) % len(pool)] if has_wrong[i] else "")
+        out.append(("seqs", vc, "write_seqs" if typed else writer_for(k + 1)))
+    return out
+
+
+def named_wrong_classes(plan, k):
+    import apps_C14 as A
+
+    return [A.NAMED_WRONG[(k + i) % 2] if "wrong" in p else "" for i, p in enumerate(plan)]
+
+
 # ------------------------------------------------------------------- plan selection
 def gen_plans(n, seed):
     """seeded pairwise-covering set of plans: every pair of (input position, profile) values
@@ -78,12 +114,13 @@ def gen_plans(n, seed):
     return plans
 
 
-def write_cfg(scratch: Path, name, n, ws, typed, plans):
+def write_cfg(scratch: Path, name, n, ws, typed, plans, named=(True,)):
     """-> (cfg path relative to specs/, PLAN_FILE)"""
     text = (
         "SPECIFICATION Spec\nCONSTANTS\n"
         f"  N = {n}\n  S = {S}\n  Ws = {tla_value(set(ws))}\n"
         f"  WriterTyped = {{{', '.join('TRUE' if t else 'FALSE' for t in typed)}}}\n"
+        f"  Named = {{{', '.join('TRUE' if t else 'FALSE' for t in named)}}}\n"
     )
     text += "".join(f"INVARIANT {i}\n" for i in ("TypeOK", "Conservation", "AtMostOnce", "Accounted", "KindAndStep", "PassThrough", "Fifo"))
     text += "PROPERTY WriteOnce\n"
@@ -234,10 +271,15 @@ SEPARATE_ANOMALIES = ("sqlite:not_completed-identifier-carries-.json-suffix",)
 DISTINCT = set()
 
 
+def alone_key(job, i):
+    vc = (job.get("vclass") or [""] * job["n"])[i - 1]
+    return (job.get("family", "seqs"), job["writer"], job["inputs"], tuple(job["plan"][i - 1]), vc, i)
+
+
 def count_case(job):
     """distinct non-trivial case: (mode, writer, input kind, plan, W, order) with at least one failing record"""
     if any(o != "ok" for p in job["plan"] for o in p):
-        DISTINCT.add((job.get("kind", "apply_to"), job.get("writer"), job["inputs"], json.dumps(job["plan"]), job.get("w", 0), tuple(job.get("order") or ()), tuple(job.get("delays") or ())))
+        DISTINCT.add((job.get("kind", "apply_to"), job.get("family"), json.dumps(job.get("vclass")), job.get("writer"), job["inputs"], json.dumps(job["plan"]), job.get("w", 0), tuple(job.get("order") or ()), tuple(job.get("delays") or ())))
 
 
 def judge(run, job, rec, obs, alone):
@@ -294,7 +336,7 @@ def judge(run, job, rec, obs, alone):
     # identical to the single-input run
     if not d:
         for i in range(1, n + 1):
-            ref = alone.get((writer, job["inputs"], tuple(job["plan"][i - 1]), i))
+            ref = alone.get(alone_key(job, i))
             if ref is not None and obs["raw"].get(str(i)) != ref:
                 bad |= run.fail(f"{mode}:{writer}:content-differs-from-single-input-run:{exp[i - 1]['kind']}", detail, what="record content differs from applying the app to that input alone")
     if "unforced" in obs and not bad:
@@ -370,7 +412,7 @@ def trace_of(job, obs):
                 ev.append({"op": "Consume", "t": t, "rec": r})
     if obs["ret"] == "ok":
         ev.append({"op": "Final", "t": 0, "rec": obs["disk"]})
-    return {"plan": [list(p) for p in job["plan"]], "w": w, "wtyped": impl_C14.WRITERS[job["writer"]][2], "events": ev}
+    return {"plan": [list(p) for p in job["plan"]], "named": job.get("named") or [True] * n, "w": w, "wtyped": impl_C14.WRITERS[job["writer"]][2], "events": ev}
 
 
 def validate_traces(run, scratch, pairs):
@@ -389,7 +431,7 @@ def validate_traces(run, scratch, pairs):
         cfg = scratch / f"Trace_ComposedApp_{n}.cfg"
         cfg.write_text(
             "SPECIFICATION TraceSpec\nCONSTANTS\n"
-            f"  N = {n}\n  S = {S}\n  Ws = {{0, 1, 2, 3, 4}}\n  WriterTyped = {{TRUE, FALSE}}\n"
+            f"  N = {n}\n  S = {S}\n  Ws = {{0, 1, 2, 3, 4}}\n  WriterTyped = {{TRUE, FALSE}}\n  Named = {{TRUE, FALSE}}\n"
             "INVARIANT Report\n"
         )
         res = run_tlc("Trace_ComposedApp", os.path.relpath(cfg, VERIF / "specs"), scratch, workers=1, env={"TRACE_FILE": tf, "PLAN_FILE": ""}, timeout=1200)
@@ -428,7 +470,7 @@ def index_records(recs):
     for r in recs:
         plan = tuple(tuple(p) for p in r["plan"])
         if r["act"] == "Serial":
-            ser[(r["n"], plan, r["wtyped"])] = r
+            ser[(r["n"], plan, r["wtyped"], tuple(r["named"]))] = r
         else:
             par[(r["n"], r["w"], tuple(r["order"]))].append(r)
     return ser, par
@@ -453,8 +495,12 @@ def build_parallel_jobs(run, tier, par, cover, in_dir, jid, rnd):
     for c, reps in chosen:
         n, w, order = c
         byplan = defaultdict(dict)
+        mixed = []
         for r in par[c]:
-            byplan[tuple(tuple(p) for p in r["plan"])][r["wtyped"]] = r
+            if all(r["named"]):
+                byplan[tuple(tuple(p) for p in r["plan"])][r["wtyped"]] = r
+            else:
+                mixed.append(r)
         avail = [p for p in cover[n] if p in byplan] or sorted(byplan)
         for _ in range(reps):
             plan = avail[cursor[n] % len(avail)]
@@ -463,8 +509,26 @@ def build_parallel_jobs(run, tier, par, cover, in_dir, jid, rnd):
             k += 1
             rec = byplan[plan][impl_C14.WRITERS[writer][2]]
             jid += 1
-            job = {"id": jid, "n": n, "plan": [list(p) for p in plan], "w": w, "order": list(order), "writer": writer, "inputs": ("member", "path")[k % 2], "in_dir": str(in_dir)}
+            job = {"id": jid, "n": n, "plan": [list(p) for p in plan], "named": [True] * n, "w": w, "order": list(order), "family": "seqs", "vclass": named_wrong_classes(plan, k), "writer": writer, "inputs": ("member", "path")[k % 2], "in_dir": str(in_dir)}
+            if writer in ("write_json", "write_db") and not any("wrong" in p for p in plan) and k % 2:
+                # the same behaviour with other classes of value flowing between the steps
+                job.update(family="values", vclass=instantiations(plan, False, [True] * n, k, lambda _: writer)[0][1])
             pjobs[jid] = (job, rec)
+        # behaviours whose failing steps meet values that do not name their source (thorough, n = 2)
+        mixed.sort(key=lambda r: (r["plan"], r["named"], r["wtyped"]))
+        nmixed = 0
+        for r in mixed[cursor[("mixed", n)] % 7 :: 7]:
+            if nmixed >= reps:
+                break
+            k += 1
+            inst = instantiations([tuple(p) for p in r["plan"]], r["wtyped"], r["named"], k, lambda q: ("write_json", "write_db")[q % 2])
+            if not inst:
+                continue
+            family, vc, writer = inst[k % len(inst)]
+            jid += 1
+            nmixed += 1
+            pjobs[jid] = ({"id": jid, "n": n, "plan": [list(p) for p in r["plan"]], "named": list(r["named"]), "w": w, "order": list(order), "family": family, "vclass": vc, "writer": writer, "inputs": ("member", "path")[k % 2], "in_dir": str(in_dir)}, r)
+        cursor[("mixed", n)] += 3
     fjobs = {}
     nfree = 2 if tier == "quick" else 24
     for f in range(nfree):
@@ -522,35 +586,51 @@ def check(run: Run):
             # --------------------------------------------------------- serial replays
             jobs, jid = [], 0
             serial_jobs = {}
-            for k, ((n, plan, typed), rec) in enumerate(sorted(ser.items(), key=lambda kv: (kv[0][0], kv[0][1], kv[0][2]))):
-                writers = TYPED_WRITERS if typed else UNTYPED_WRITERS
-                for wi, writer in enumerate(writers):
-                    if tier == "quick" and writer.endswith("_sqlite") and (n > 2 or k % 3):
-                        continue
-                    both = tier == "thorough" and n < 4 and not (n == 3 and writer.endswith("_sqlite"))
-                    kinds = ("member", "path") if both else (("member", "path")[(k + wi) % 2],)
-                    for inputs in kinds:
-                        jid += 1
-                        job = {"id": jid, "n": n, "plan": [list(p) for p in plan], "w": 0, "order": [], "writer": writer, "inputs": inputs, "in_dir": str(in_dir)}
-                        jobs.append(job)
-                        serial_jobs[jid] = (job, rec)
-                if not typed:
-                    jid += 1
-                    job = {"id": jid, "kind": "as_completed", "n": n, "plan": [list(p) for p in plan], "inputs": ("member", "path")[k % 2], "in_dir": str(in_dir)}
-                    jobs.append(job)
-                    serial_jobs[jid] = (job, rec)
-            # single-input reference runs for every (writer, input kind, profile, position) in use
+
+            def add(job, rec):
+                nonlocal jid
+                jid += 1
+                job.update(id=jid, in_dir=str(in_dir))
+                jobs.append(job)
+                serial_jobs[jid] = (job, rec)
+
+            wfor = lambda k: ("write_json", "write_db")[k % 2]
+            for k, ((n, plan, typed, named), rec) in enumerate(sorted(ser.items(), key=lambda kv: kv[0])):
+                lplan = [list(p) for p in plan]
+                base = {"n": n, "plan": lplan, "named": list(named), "w": 0, "order": []}
+                if all(named):
+                    # sequence family, every writer/store (wrongly typed values name their source)
+                    vc = named_wrong_classes(plan, k)
+                    writers = TYPED_WRITERS if typed else UNTYPED_WRITERS
+                    for wi, writer in enumerate(writers):
+                        if tier == "quick" and writer.endswith("_sqlite") and (n > 2 or k % 3):
+                            continue
+                        both = tier == "thorough" and n < 4 and not (n == 3 and writer.endswith("_sqlite"))
+                        kinds = ("member", "path") if both else (("member", "path")[(k + wi) % 2],)
+                        for inputs in kinds:
+                            add(dict(base, family="seqs", vclass=vc, writer=writer, inputs=inputs), rec)
+                    if not typed:
+                        add(dict(base, kind="as_completed", family="seqs", vclass=vc, inputs=("member", "path")[k % 2]), rec)
+                # value classes: what the failing step is handed (and what a `wrong` step returns)
+                if n == 2 or tier == "thorough" or k % 4 == 0:
+                    for family, vc, writer in instantiations(plan, typed, named, k, wfor):
+                        add(dict(base, family=family, vclass=vc, writer=writer, inputs=("member", "path")[k % 2]), rec)
+                        if not typed and k % 2 == 0:
+                            add(dict(base, kind="as_completed", family=family, vclass=vc, inputs=("member", "path")[(k + 1) % 2]), rec)
+            # single-input reference runs for every (family, writer, input kind, profile, class, position) in use
             alone_keys = {}
             need = set()
             for job, _ in list(serial_jobs.values()) + list(pjobs.values()):
                 if job.get("kind") != "as_completed":
-                    need.update((job["writer"], job["inputs"], tuple(p), i + 1) for i, p in enumerate(job["plan"]))
+                    need.update(alone_key(job, i + 1) for i in range(job["n"]))
             for key in sorted(need):
-                writer, inputs, prof, i = key
+                family, writer, inputs, prof, vcls, i = key
                 jid += 1
                 plan = [list(PROFILES[0])] * 4
                 plan[i - 1] = list(prof)
-                jobs.append({"id": jid, "n": 4, "plan": plan, "w": 0, "order": [], "writer": writer, "inputs": inputs, "subset": [i], "in_dir": str(in_dir)})
+                vc = ["seqs" if family == "values" else ""] * 4
+                vc[i - 1] = vcls
+                jobs.append({"id": jid, "n": 4, "plan": plan, "w": 0, "order": [], "family": family, "vclass": vc, "writer": writer, "inputs": inputs, "subset": [i], "in_dir": str(in_dir)})
                 alone_keys[jid] = key
             t0 = time.time()
             obs_all = run_serial_jobs(jobs, scratch)
@@ -560,7 +640,7 @@ def check(run: Run):
                 if o.get("machinery"):
                     raise MachineryError(str(o.get("traceback")))
                 if o["ret"] == "ok":
-                    alone[key] = o["raw"].get(str(key[3]))
+                    alone[key] = o["raw"].get(str(key[-1]))
             nser = 0
             trace_pairs = []
             for j, (job, rec) in serial_jobs.items():
@@ -569,7 +649,7 @@ def check(run: Run):
                     judge_as_completed(run, job, rec, o)
                 else:
                     judge(run, job, rec, o, alone)
-                    if nser % 23 == 0 and job["n"] >= 3:
+                    if nser % 23 == 0 and (job["n"] >= 3 or job.get("family") == "values"):
                         trace_pairs.append((job, o))
                 nser += 1
                 if nser % 997 == 1:
